@@ -67,7 +67,10 @@ RankSeq(s, al, seq, k, acc) ==
            zero == s.apps[a].prio = 0
            within == IF zero THEN al.maxutil = NoNum
                      ELSE al.maxutil = NoNum
-                          \/ \A d \in DOMAIN after : after[d] <= al.maxutil * al.reserved[d]
+                          \* util_after <= m - 1  <=>  after[d] <= m*res[d] + (m-1)*eps for all d:
+                          \* for a whole m >= 1 that is after[d] <= m*res[d]; for m = 0 it never holds
+                          \/ (al.maxutil >= 1
+                              /\ \A d \in DOMAIN after : after[d] <= al.maxutil * al.reserved[d])
            boosted == ~zero /\ \A d \in DOMAIN acc : acc[d] < al.reserved[d]
            rank == IF ~within THEN UnplacedRank
                    ELSE IF boosted THEN al.rank - al.adj ELSE al.rank
